@@ -11,6 +11,8 @@ PROP = dict(
     lean_modules=["MM.Props.C24"],
     theorems=[
         "MM.C24.C24_401",
+        "MM.C24.C24_token_exact",
+        "MM.C24.C24_401_exact",
         "MM.C24.C24_exempt_set",
         "MM.C24.C24_exempt_exact",
         "MM.C24.C24_cache_after_bcrypt",
@@ -37,8 +39,10 @@ PROP = dict(
         "subtree, no method/host/wildcard — the extractor refuses anything else) and validated by the correspondence run only",
         "exempt set and mux registration table regenerated from internal/health/server.go by tools/c24_extract.go (go/ast) on every run; the "
         "extractor also checks that the mux is wrapped by requireAuth exactly when cfg.TokenHash != \"\"",
-        "bcrypt + the SHA-256 token cache are one abstract predicate `valid` in the theorems (equality with the configured token in T-diff; "
-        "SHA-256 collision-freeness assumed for the cache fast path)",
+        "bcrypt + the SHA-256 token cache are one abstract predicate `valid` in C24_401; C24_token_exact / C24_401_exact instantiate it with validateToken = "
+        "length/NUL guard + an ideal hash of bcrypt's key (first 72 bytes of the NUL-terminated password repeated cyclically); that stand-in is validated "
+        "by T-diff against real bcrypt hashes with 14 / 71 / 72-byte tokens and presented strings of 71-5000 bytes with suffixes and NUL bytes; "
+        "SHA-256 collision-freeness assumed for the cache fast path",
         "Request.Pattern (set by ServeMux.ServeHTTP since Go 1.23) identifies the registration that served a request",
     ],
     assumptions=[
